@@ -73,10 +73,18 @@ var (
 		"K0": word(1), "K1": word(2), "K2": append([]byte{0x80}, word(3)[1:]...),
 		"S0": {0x61}, "S1": {0x62},
 		"KX": word(99), // never written: the "absent slot" of the read operations
+		// relational, variable-length keys (SetData takes any []byte; FT balances live under "f:"+name):
+		// strict prefixes of one another (=> values in the value slot of branch nodes), the empty key,
+		// neighbours in the last / first nibble of S0, and 40-byte keys with the same relations
+		"P0": []byte("f:tok"), "P1": []byte("f:tok.w"), "P2": []byte("f:tok.w.x"), "E": {},
+		"N0": {0x60}, "N1": {0x71},
+		"L0": append(bytes.Repeat([]byte{0x11}, 39), 0x01), "L1": append(bytes.Repeat([]byte{0x11}, 39), 0x02),
+		"L2": append([]byte{0x21}, append(bytes.Repeat([]byte{0x11}, 38), 0x01)...),
 	}
 	slotVals = map[string][]byte{
 		"VA": bytes.Repeat([]byte{0xaa}, 32), "VB": bytes.Repeat([]byte{0xbb}, 32), "vs": {0x07},
-		"VL": bytes.Repeat([]byte{0xcd}, 700), // long value: one node of > 512 bytes
+		"VL":  bytes.Repeat([]byte{0xcd}, 700), // long value: one node of > 512 bytes
+		"V40": bytes.Repeat([]byte{0x40}, 40),  // with "vs": hashed vs embedded children / branch values
 	}
 	codes = map[string][]byte{}
 )
@@ -118,7 +126,7 @@ func bigSlotVal(i int, gen int) []byte {
 // alphabet: operations, block templates, histories
 
 type Op struct {
-	K    string `json:"k"`              // nonce | slot | code | suicide | bal | bigslots | read (Val: exist|nonce|codehash|code|absent|bal) | snap (Snapshot) | revert (RevertToSnapshot of the innermost open snapshot)
+	K    string `json:"k"`              // nonce | slot | code | suicide | bal | bigslots | ft (Key = token name, N = amount, Val = set|add: SetFT / AddFT of a token without ERC20 binding) | read (Val: exist|nonce|codehash|code|absent|bal) | snap (Snapshot) | revert (RevertToSnapshot of the innermost open snapshot)
 	A    int    `json:"a"`              // account index
 	N    uint64 `json:"n,omitempty"`    // nonce / balance / number of big slots
 	Key  string `json:"key,omitempty"`  // slot key name
@@ -246,6 +254,25 @@ func templates(thorough bool) []tmpl {
 		tmpl{name: "J4", ops: []Op{sn, {K: "nonce", A: 0, N: 41}, {K: "code", A: 0, Code: "c24k0"}, {K: "slot", A: 0, Key: "K2", Val: "VB"},
 			{K: "suicide", A: 1}, {K: "bal", A: 2, N: 9}, rv, {K: "bal", A: 1, N: 4}}},
 	)
+	// Relational storage keys: prefix chains (one key a strict prefix of another: the shorter one is
+	// stored in the VALUE slot of a branch node), the empty key, nibble neighbours, 1-byte and 40-byte
+	// keys x 1-byte and 40-byte values (embedded vs hashed), in two accounts; overwrite and removal of
+	// the prefix key and of the longer keys in later blocks; the same key space through SetFT / AddFT.
+	sl := func(a int, k, v string) Op { return Op{K: "slot", A: a, Key: k, Val: v} }
+	t = append(t,
+		tmpl{name: "KA", ops: []Op{{K: "nonce", A: 0, N: 101}, sl(0, "P0", "vs"), sl(0, "P1", "V40"), sl(0, "P2", "vs"),
+			{K: "nonce", A: 2, N: 101}, sl(2, "P0", "V40"), sl(2, "P1", "vs"), sl(2, "E", "vs"), sl(2, "S0", "vs"), sl(2, "N0", "V40"), sl(2, "N1", "vs")}},
+		tmpl{name: "KB", ops: []Op{{K: "nonce", A: 0, N: 103}, sl(0, "P0", ""), sl(0, "P2", "V40"), sl(0, "L0", "vs"), sl(0, "L1", "V40"), sl(0, "L2", "vs"),
+			{K: "nonce", A: 2, N: 103}, sl(2, "E", ""), sl(2, "P1", ""), sl(2, "P0", "vs")}},
+		tmpl{name: "KF", ops: []Op{{K: "nonce", A: 1, N: 105}, {K: "ft", A: 1, Key: "tok", N: 7, Val: "set"}, {K: "ft", A: 1, Key: "tok.w", N: 9, Val: "set"},
+			{K: "ft", A: 1, Key: "tok.w.x", N: 300, Val: "add"}, {K: "ft", A: 1, Key: "tok", N: 5, Val: "add"}}},
+	)
+	if thorough {
+		t = append(t,
+			tmpl{name: "KC", ops: []Op{{K: "nonce", A: 0, N: 104}, sl(0, "P1", ""), sl(0, "P0", "V40"), sl(0, "E", "V40"), sl(0, "N0", "vs"),
+				{K: "nonce", A: 2, N: 104}, sl(2, "P2", "V40"), sl(2, "P0", ""), sl(2, "L0", "V40"), sl(2, "L2", "V40")}},
+		)
+	}
 	// Durable storage-only accounts (nonce 0, no code, real storage: what every funded-but-silent
 	// account, token binding and escrow account looks like; the balance-keeping account written by
 	// "bal" is one, too) and blocks that merely LOAD them -- no write, no slot of theirs cached --
@@ -366,8 +393,8 @@ func init() {
 }
 
 // histories enumerates, in order of length, all sequences of 1..maxLen templates x fork shapes.
-// Two blocks: the second on the first or on the empty state.  Three blocks: a chain whose last block
-// sits on the second, on the first (sibling of the second) or -- moreForks -- on the empty state.
+// Two blocks: the second on the first or on the empty state.  Three blocks: a chain; allForks: the
+// last block also on the first (a sibling of the second, committed after its competitor).
 func histories(ts []tmpl, maxLen int, allForks bool, maxBig int, visit func(idx int64, h History, nbig int) bool) {
 	var idx int64
 	var rec func(h History, nbig int, want int) bool
@@ -383,19 +410,16 @@ func histories(ts []tmpl, maxLen int, allForks bool, maxBig int, visit func(idx 
 			if t.big {
 				nb++
 			}
-			if nb > maxBig {
-				continue
+			if nb > maxBig || (want == 3 && nb > 1) {
+				continue // two oversized blocks only in histories of two blocks
 			}
 			parents := []int{i - 1}
 			switch {
 			case i == 0:
 			case want <= 2:
 				parents = append(parents, -1) // i == 1: the empty state
-			case i == want-1:
+			case i == want-1 && allForks && nb == 0:
 				parents = append(parents, i-2) // sibling of the previous block
-				if allForks {
-					parents = append(parents, -1)
-				}
 			}
 			for _, p := range parents {
 				nh := History{Blocks: append(append([]Block{}, h.Blocks...), Block{T: t.name, Parent: p, Ops: t.ops})}
@@ -488,6 +512,13 @@ func (m *model) apply(o Op) {
 		for i := 0; i < int(o.N); i++ {
 			a.Slots[string(bigSlotKey(i))] = bigSlotVal(i, o.Gen)
 		}
+	case "ft":
+		k := "f:" + o.Key
+		v := new(big.Int).SetUint64(o.N)
+		if o.Val == "add" {
+			v.Add(v, new(big.Int).SetBytes(a.Slots[k]))
+		}
+		a.Slots[k] = v.Bytes()
 	case "code":
 		a.Code = codes[o.Code]
 	case "bal":
@@ -541,6 +572,12 @@ func applyReal(st *account.AccountDB, o Op, snaps *[]int) {
 	case "bigslots":
 		for i := 0; i < int(o.N); i++ {
 			st.SetData(ad, bigSlotKey(i), bigSlotVal(i, o.Gen))
+		}
+	case "ft":
+		if o.Val == "add" {
+			st.AddFT(ad, o.Key, new(big.Int).SetUint64(o.N))
+		} else {
+			st.SetFT(ad, o.Key, new(big.Int).SetUint64(o.N))
 		}
 	case "code":
 		st.SetCode(ad, codes[o.Code])
@@ -829,7 +866,7 @@ func compareAPI(st *account.AccountDB, snap *model) (field, detail string) {
 // compareAPIEx: skip (optional) lists accounts whose own fields are not compared; with skip != nil
 // the code of accounts holding zero-length code is not read either (see the pre-commit guard).
 func compareAPIEx(st *account.AccountDB, snap *model, skip *[nAcct]bool) (field, detail string) {
-	probes := []string{"K0", "K1", "K2", "S0", "S1"}
+	probes := []string{"K0", "K1", "K2", "S0", "S1", "P0", "P1", "P2", "E", "N0", "N1", "L0", "L1", "L2"}
 	for i, ad := range accts {
 		ma := &snap.A[i]
 		if skip != nil && skip[i] {
@@ -1245,8 +1282,7 @@ func sameSigs(a, b []viol) bool {
 }
 
 // finsFor: which finalisation variants a history is run with.  Histories of up to 2 blocks: all of
-// them (oversized blocks: a subset).  3 blocks: the production order ir1; thorough runs the plain
-// chain also with ir-each and the fork from the empty state with the bare Commit.
+// them (oversized blocks: a subset).  3 blocks: the production order ir1.
 func finsFor(h History, nbig int, thorough bool) []string {
 	switch {
 	case nbig > 0 && len(h.Blocks) <= 2 && thorough:
@@ -1255,16 +1291,8 @@ func finsFor(h History, nbig int, thorough bool) []string {
 		return []string{"", "ir1"}
 	case len(h.Blocks) <= 2:
 		return finVariants
-	case !thorough:
-		return []string{"ir1"}
 	}
-	switch h.Blocks[2].Parent {
-	case 1:
-		return []string{"ir1", "ir-each"}
-	case 0:
-		return []string{"ir1"}
-	}
-	return []string{""}
+	return []string{"ir1"}
 }
 
 // dropBlock returns h without block i (children of i are re-parented to i's parent).
@@ -1489,7 +1517,7 @@ func main() {
 	fw.Main(fw.Check{
 		ID: "C03", Level: "fault_enumeration",
 		Rule: "evaluation = (history incl. finalisation variant, write-granularity, map-order variant, prefix p of the physical write log) with all acknowledged and all on-disk-top-node roots cold-opened and walked, " +
-			"plus (history, failing write p) re-commit cases; histories = all sequences of 1..3 block templates (quick 14, thorough 24 templates, among them 4 / 8 with in-block Snapshot/RevertToSnapshot activity and 2 / 4 that create storage-only accounts (nonce 0, no code) or merely load them without dirtying; at most 1 / 2 oversized blocks) x fork shapes x finalisation variant applied by every block between its mutations and the commit (nothing | IntermediateRoot(true|false) | Finalise(true|false) | IntermediateRoot after every mutation | Commit twice | Commit(false); all 8 for histories of <= 2 blocks, 3-block histories run in the production order IntermediateRoot(true)+Commit(true), thorough also IntermediateRoot-after-every-mutation) (2 blocks: second on the first or on the empty state; 3 blocks: last block on the second, on the first = sibling fork committed after its competitor, thorough also on the empty state); " +
+			"plus (history, failing write p) re-commit cases; histories = all sequences of 1..3 block templates (quick 17, thorough 28 templates (3 / 4 with relational variable-length storage keys: prefix chains, empty key, nibble neighbours, 1/40-byte keys x 1/40-byte values, SetFT/AddFT names), among them 4 / 8 with in-block Snapshot/RevertToSnapshot activity and 2 / 4 that create storage-only accounts (nonce 0, no code) or merely load them without dirtying; at most 1 / 2 oversized blocks) x fork shapes x finalisation variant applied by every block between its mutations and the commit (nothing | IntermediateRoot(true|false) | Finalise(true|false) | IntermediateRoot after every mutation | Commit twice | Commit(false); all 8 for histories of <= 2 blocks, 3-block histories run in the production order IntermediateRoot(true)+Commit(true)) (2 blocks: second on the first or on the empty state; 3 blocks: a chain, thorough also the last block on the first = sibling fork committed after its competitor, unless an oversized block is involved); " +
 			"non-trivial = prefix strictly inside one commit (not at a block boundary, not 0) or a write fault that was actually injected",
 		Assumptions: []string{
 			"one Batch.Write / Put / Delete is atomic and ordered (LevelDB journal semantics); torn writes inside one batch and fsync loss on power failure are outside the bound",
